@@ -50,9 +50,11 @@ def opLatticeModel (j : Json) : D Json := do
 /-- verdicts shared by the rational and the quadratic check -/
 def spanVerdicts (k : Nat) (rows : List (List Int)) (candidates : List (List Int)) :
     Bool × Option (List Int) :=
-  match candidates.find? (fun e => !inIntSpan k rows e) with
-  | none => (true, none)
-  | some w => (false, some w)
+  let norm1 (e : List Int) : Nat := e.foldl (fun a x => a + x.natAbs) 0
+  let missing := candidates.filter (fun e => !inIntSpan k rows e)
+  match missing with
+  | [] => (true, none)
+  | w :: ws => (false, some (ws.foldl (fun best e => if norm1 e < norm1 best then e else best) w))
 
 def opLatticeCheck (j : Json) : D Json := do
   let bs ← decNonzeroRats (← jField j "bases")
